@@ -241,7 +241,7 @@ MANIFEST_TEXT = {
     "C13": {"level_text": "Exploration: structure-aware generation of every command value, encoded by the SDK and decoded by the server's own decoder (equality + validation on both sides), journal and on-disk encodings round-tripped, TCP-vs-HTTP differential reads of boundary-valued entities and messages against what was sent, and hostile malformed-frame sessions next to a model-checked healthy connection.",
             "design_ref": "DESIGN.md §4 C13", "level_note": "Trusted base: the value generators (they decide which values count as well-formed: those the SDK's own validate() accepts) and derived PartialEq of the command types; hook H6 (re-export of the server's command decoder).",
             "technique": "runtime monitoring: round-trip and differential oracles over generated values + client-boundary observation under malformed input"},
-    "C09": {"level_text": "Rule layer: exhaustive (thorough) / sampled (quick) evaluation of the real permission rule functions over all permission records against the documented hierarchy, with isolation, monotonicity, no-residue and no-panic oracles; system layer: the handlers are observed over TCP/HTTP for unauthenticated, logged-out, deleted-user and permission-changed connections with the real rule functions as oracle.",
+    "C09": {"level_text": "Rule layer: exhaustive (thorough) / sampled (quick) evaluation of the real permission rule functions over all permission records against the documented hierarchy, with isolation, monotonicity, no-residue and no-panic oracles; system layer: the handlers are observed over TCP/HTTP (and, for never-logged-in and logged-out connections, also over the QUIC listener with the SDK's QuicClient in every second history) for unauthenticated, logged-out, deleted-user and permission-changed connections with the real rule functions as oracle.",
             "design_ref": "DESIGN.md §4 C09", "level_note": "Trusted base: PermModel (the documented hierarchy in its most permissive reading, one direction: performed => granted); fixture entities with fixed ids 1..3.",
             "technique": "runtime monitoring: exhaustive evaluation of pure rule functions + client-boundary observation of handlers"},
     "C10": {"level_text": "Exploration: credential histories (users, status, passwords, tokens of root and non-root users, virtual-clock expiry, cleaner passes, restarts, TCP and HTTP) with login attempts from the full candidate set judged by a credential model; logout/JWT revocation checks; byte search of all data files for every password/token used.",
